@@ -89,6 +89,13 @@ def run (op : String) (a : Json) : Option (Except String Json) :=
         | .ok b => ok (jBool b)
         | .keyError => err "KeyError"
         | .fuel => Proto.jObj [("fail", Json.str "model fuel exhausted")]
+  | "names.rename_inners" => some do
+      let ns ← getStrs a "names"
+      pure <| ok (jList jStr (renameInners ns []))
+  | "names.ref_class_qname" => some do
+      let src ← getStr a "source"; let n ← getStr a "name"; let inner ← getBool a "inner"
+      let ins ← getStrs a "inner_names"
+      pure <| optStrJson (refClassQName src n inner ins)
   | "names.filters_init" => some do
       let ps ← getStrs a "prefixes"
       pure <| if filtersInit ps then ok (jBool true) else err "CodegenError"
